@@ -9,7 +9,9 @@
 (* The dictionary is written functionally (head/tail recursion), on        *)
 (* purpose in a different style from DictObj (positions / EXCEPT).         *)
 (*                                                                         *)
-(* pop  : the operation of the step, [name, k, v, hasd, pairs, adopt, mk]  *)
+(* pop  : the operation of the step, [name, k, v, hasd, pairs, kw, adopt,  *)
+(*        mk]; pairs = the positional pairs of update / the constructor,   *)
+(*        kw = its keyword arguments, which are applied after them         *)
 (*        mk = the value the default hook produced (when it ran)           *)
 (* pret : what the operation returned                                      *)
 (***************************************************************************)
@@ -57,7 +59,7 @@ Result(d, f, o) ==
       [] o.name = "SetDefault" ->
             IF Has(d, o.k) THEN [od |-> d, ret |-> Lookup(d, o.k)]
             ELSE LET v == IF o.hasd THEN o.v ELSE NoneV IN [od |-> Assign(d, o.k, v), ret |-> v]
-      [] o.name = "Update"   -> [od |-> AssignAll(d, o.pairs), ret |-> NoneV]
+      [] o.name = "Update"   -> [od |-> AssignAll(d, o.pairs \o o.kw), ret |-> NoneV]   \* positional first, then keywords
       [] o.name = "Keys"     -> [od |-> d, ret |-> [t |-> "keys", n |-> 0, ks |-> KeysOf(d)]]
 
 Init == od = <<>> /\ fac \in {"None", "Dict"} /\ pop.name = "Init"
@@ -72,7 +74,7 @@ Next ==
        /\ (pop'.name = "Copy" \/ ~pop'.adopt => od' = od)
        /\ fac' = fac
     \/ /\ pop'.name = "Construct"                             \* a new dictionary built from pairs
-       /\ IF pop'.adopt THEN od' = AssignAll(<<>>, pop'.pairs) ELSE od' = od /\ fac' = fac
+       /\ IF pop'.adopt THEN od' = AssignAll(<<>>, pop'.pairs \o pop'.kw) ELSE od' = od /\ fac' = fac
 
 Spec == Init /\ [][Next]_vars
 =============================================================================
